@@ -894,7 +894,7 @@ impl Engine for Regs {
             }
         }
         // (5) random scripts and random (mostly unknown) names
-        let n = if tier == Tier::Quick { 3000 } else { 60000 };
+        let n = if tier == Tier::Quick { 15000 } else { 60000 };
         let infos: Vec<GenInfo> = CTXS.iter().map(|c| dispatch!(*c, gen_info()).unwrap()).collect();
         for _ in 0..n {
             let ci = rng.below(CTXS.len() as u64) as usize;
